@@ -1018,6 +1018,49 @@ func main() {
 			b.Close()
 		}
 	}
+	// ---- part E2: a transaction that changes its database and flushes it (MULTI / … / SELECT 0 / FLUSHDB /
+	// EXEC, issued from database 1) against FLUSHALL of another connection: both finish (D91)
+	for rep := 0; rep < 4 && failures == 0 && on("E"); rep++ {
+		vs := redisemu.VerifNewStore("")
+		a, b := vs.NewClient(), vs.NewClient()
+		do := func(cl *redisemu.VerifClient, c ...string) string { r, _ := cl.Dispatch(toArgv(c)); return string(r) }
+		do(b, "SET", "zero", "0")
+		do(a, "SELECT", "1")
+		do(a, "SET", "one", "1")
+		started := make(chan struct{})
+		fin := make(chan string, 2)
+		go func() {
+			do(a, "MULTI")
+			for i := 0; i < 30000; i++ {
+				do(a, "PING")
+			}
+			do(a, "SELECT", "0")
+			do(a, "FLUSHDB")
+			close(started)
+			do(a, "EXEC")
+			fin <- "A"
+		}()
+		<-started
+		time.Sleep(time.Duration(1+rep) * time.Millisecond)
+		go func() {
+			do(b, "FLUSHALL")
+			fin <- "B"
+		}()
+		for n := 0; n < 2; n++ {
+			select {
+			case <-fin:
+			case <-time.After(20 * time.Second):
+				fail("flush-pair", 100+rep, []string{"A (database 1): MULTI; PING x 30000; SELECT 0; FLUSHDB; EXEC", "B (database 0, while A's EXEC runs): FLUSHALL"},
+					"the transaction and the other connection's FLUSHALL did not both finish within 20 s: each holds a data store the other one waits for")
+				n = 2
+			}
+		}
+		stats["flush_pair_checks"]++
+		if failures == 0 {
+			a.Close()
+			b.Close()
+		}
+	}
 	// ---- part F: large values. One connection rewrites a 256 KiB string as a whole (all bits set, all
 	// bits clear) with commands that keep its length; the others count and read its bits. A reader that
 	// sees some of the new bytes and some of the old ones has observed half a command.
